@@ -179,17 +179,39 @@ def _delegates(m, fi, ka, have, depth=0):
         params = h.value_params()
         graded = set()
         objs = set()        # parameters receiving UTPM objects whose .data is graded in the caller
+
+        def view_of(a):
+            """`A.data[:, p]` / `x_data[:, p:p+1, ...]`: one direction of a graded array, the coefficient axis kept whole"""
+            if isinstance(a, ast.Subscript) and ka._arr_name(a.value) in ka.gvars:
+                i0 = a.slice.elts[0] if isinstance(a.slice, ast.Tuple) and a.slice.elts else a.slice
+                if isinstance(i0, ast.Slice) and i0.lower is None and i0.upper is None and i0.step is None:
+                    return ka._arr_name(a.value)
+            return None
         for i, a in enumerate(c.args):
-            if ka._arr_name(a) in ka.gvars and i < len(params):
+            if (ka._arr_name(a) in ka.gvars or view_of(a)) and i < len(params):
                 graded.add(params[i])
             elif isinstance(a, ast.Name) and a.id + '.data' in ka.gvars and i < len(params):
                 objs.add(params[i])
         for k in c.keywords:
-            if k.arg and ka._arr_name(k.value) in ka.gvars:
+            if k.arg and (ka._arr_name(k.value) in ka.gvars or view_of(k.value)):
                 graded.add(k.arg)
             elif k.arg and isinstance(k.value, ast.Name) and k.value.id + '.data' in ka.gvars:
                 objs.add(k.arg)
         if not graded and not objs:
+            # fail closed: graded data that reaches a helper in a form that is not followed (only shapes and single coefficients are harmless)
+            for a in list(c.args) + [k.value for k in c.keywords]:
+                skip = set()
+                for x in ast.walk(a):
+                    if isinstance(x, ast.Attribute) and x.attr in ('shape', 'dtype', 'ndim', 'size'):
+                        skip |= {id(y) for y in ast.walk(x.value)}
+                    if isinstance(x, ast.Subscript) and ka._arr_name(x.value) in ka.gvars:
+                        i0 = x.slice.elts[0] if isinstance(x.slice, ast.Tuple) and x.slice.elts else x.slice
+                        if not isinstance(i0, ast.Slice):
+                            skip |= {id(y) for y in ast.walk(x.value)}
+                for x in ast.walk(a):
+                    if id(x) not in skip and isinstance(x, (ast.Name, ast.Attribute)) and ka._arr_name(x) in ka.gvars:
+                        ka.unknown.append((c, 'graded array `%s` is handed to the helper %s in a form that is not followed: `%s`' % (ka._arr_name(x), h.name, norm(a)[:50])))
+                        break
             continue
         # parameters that receive the caller's truncation degree
         dpar = set()
@@ -212,7 +234,7 @@ def _delegates(m, fi, ka, have, depth=0):
         amap = {}
         for i, a in enumerate(c.args):
             if i < len(params):
-                an = ka._arr_name(a)
+                an = ka._arr_name(a) if ka._arr_name(a) in ka.gvars else view_of(a)
                 if an in ka.gvars and params[i] in graded:
                     amap[an] = params[i]
                 elif isinstance(a, ast.Name) and a.id + '.data' in ka.gvars and params[i] in objs:
